@@ -1,6 +1,6 @@
 (* RenProps.v -- proofs about the model of ren.c and of the width classes of uc.c (C17). *)
 From Coq Require Import List NArith ZArith Lia Bool Arith Permutation Sorted ZifyBool ZifyNat ZifyN.
-From NV Require Import Bytes UcDefs GenUcTables GenConf GenConsts DirDefs RenDefs.
+From NV Require Import Bytes UcDefs UcSpec UcProps UcSegProps GenUcTables GenConf GenConsts DirDefs RenDefs.
 Import ListNotations.
 Local Open Scope Z_scope.
 Ltac Zify.zify_post_hook ::= Z.div_mod_to_equations.
@@ -854,3 +854,29 @@ Theorem roundtrip : forall dr o,
      (k < uc_slen s)%nat /\ ren_pos dr o s (Z.of_nat k) <= p /\
      (p < ren_wid dr o s -> p < ren_pos dr o s (Z.of_nat k) + ren_cwid (chr_of o s k) (ren_pos dr o s (Z.of_nat k)))).
 Proof. intros dr o H s. split; [apply ren_roundtrip; exact H | apply ren_covering; exact H]. Qed.
+
+(* ---- valid UTF-8: both paths see the code-point segmentation (ties C17_tiling to C16) ---- *)
+Lemma nth_bounds cs : forall base j, (j <= length cs)%nat -> nth j (bounds cs base) 0%nat = (base + off_of cs j)%nat.
+Proof.
+  induction cs as [|c r IH]; intros base j Hj.
+  - cbn in Hj. assert (j = 0)%nat by lia. subst. cbn. unfold off_of. cbn. lia.
+  - destruct j as [|j]; cbn [bounds nth].
+    + rewrite off_of_0. lia.
+    + rewrite IH by (cbn in Hj; lia). rewrite off_of_S. lia.
+Qed.
+
+Lemma fast_suf_chars : forall j cs, Forall scalar cs -> (j <= length cs)%nat -> fast_suf j (chars cs) = chars (skipn j cs).
+Proof.
+  induction j as [|j IH]; intros cs Hs Hj; [reflexivity|].
+  destruct cs as [|c r]; [cbn in Hj; lia|]. inversion Hs; subst.
+  cbn [fast_suf skipn]. rewrite chars_cons.
+  rewrite (proj1 (uc_len_code_encode c (chars r) H1)). rewrite skipn_app_exact. apply IH; [assumption | cbn in Hj; lia].
+Qed.
+
+(* on valid UTF-8 both paths of ren_position see the same characters: the code-point segmentation *)
+Theorem chr_of_valid o cs j : Forall scalar cs -> (j <= length cs)%nat -> chr_of o (chars cs) j = chars (skipn j cs).
+Proof.
+  intros Hs Hj. unfold chr_of. destruct (use_reorder o (chars cs)).
+  - unfold chr_at. rewrite uc_chop_chars by exact Hs. rewrite nth_bounds by exact Hj. cbn [plus]. apply skipn_off_of.
+  - apply fast_suf_chars; assumption.
+Qed.
